@@ -98,6 +98,65 @@ def _run_component(args):
     return d
 
 
+def _task_main(kind, arg, path):
+    out = _run_job(arg) if kind == "job" else _run_component(arg)
+    with open(path, "w") as f:
+        json.dump(out, f, default=str)
+
+
+def _run_tasks(tasks, workers, deadline):
+    """Run every task in its own forked process with a hard wall-clock deadline.  (z3 does not always honour its own
+    timeout; a job that overruns is killed and reported as undecided - never as a verdict.)"""
+    import multiprocessing as mp
+    import tempfile
+
+    ctx = mp.get_context("fork")
+    tmp = tempfile.mkdtemp(prefix="pyvc_", dir=os.environ.get("TMPDIR", "/tmp"))
+    pending = list(enumerate(tasks))
+    running, outs = {}, [None] * len(tasks)
+    try:
+        while pending or running:
+            while pending and len(running) < workers:
+                i, (kind, arg) = pending.pop(0)
+                path = os.path.join(tmp, f"{i}.json")
+                p = ctx.Process(target=_task_main, args=(kind, arg, path))
+                p.start()
+                running[i] = (p, time.time(), path, kind, arg)
+            time.sleep(0.05)
+            for i, (p, t0, path, kind, arg) in list(running.items()):
+                if not p.is_alive():
+                    p.join()
+                    try:
+                        with open(path) as f:
+                            outs[i] = json.load(f)
+                    except Exception:
+                        outs[i] = _failed_task(kind, arg, f"worker died with exit code {p.exitcode}", time.time() - t0, crashed=True)
+                    del running[i]
+                elif time.time() - t0 > deadline:
+                    p.kill()
+                    p.join()
+                    outs[i] = _failed_task(kind, arg, f"killed after the {deadline:.0f}s job deadline (solver did not return)", time.time() - t0, crashed=False)
+                    del running[i]
+    finally:
+        import shutil
+
+        for p, *_ in running.values():
+            p.kill()
+        shutil.rmtree(tmp, ignore_errors=True)
+    return outs
+
+
+def _failed_task(kind, arg, text, seconds, crashed):
+    if kind == "job":
+        idx, preset = arg
+        inst = [] if crashed else [dict(label="job.deadline", cases=_jsonable(preset), status="unknown", backend="", seconds=seconds, inputs={}, detail=text, replay=None)]
+        return dict(idx=idx, preset=_jsonable(preset), instances=inst, paths=1, infeasible=0, errors=[text] if crashed else [], notes=[], functions={}, covered=[], seconds=seconds)
+    d = asdict(ComponentResult(errors=[text] if crashed else [], undecided=[] if crashed else [text]))
+    d["idx"] = arg[0]
+    d["seconds"] = seconds
+    return d
+
+
 def _resolve_any_of(results):
     """Existential alternatives (role bindings): keep, per obligation, the alternative with the fewest failures."""
     keep, groups = [], {}
@@ -180,13 +239,11 @@ def run_property(prop, tier, seed, level, explanation="", trusted_base=(), worke
             else:
                 jobs.append((i, dict(alt)))
     workers = workers or min(16, max(1, len(jobs) + len(comps)))
-    results, cresults = [], []
-    if jobs or comps:
-        with ProcessPoolExecutor(max_workers=workers) as ex:
-            futs = [ex.submit(_run_job, j) for j in jobs]
-            cfuts = [ex.submit(_run_component, (i, tier, seed)) for i, _ in comps]
-            results = [f.result() for f in futs]
-            cresults = [f.result() for f in cfuts]
+    deadline = float(os.environ.get("PYVC_JOB_DEADLINE_S", "900" if tier == "thorough" else "180"))
+    tasks = [("job", j) for j in jobs] + [("comp", (i, tier, seed)) for i, _ in comps]
+    outs = _run_tasks(tasks, workers, deadline)
+    results = [o for (kind, _), o in zip(tasks, outs) if kind == "job"]
+    cresults = [o for (kind, _), o in zip(tasks, outs) if kind == "comp"]
 
     results = _resolve_any_of(results)
     violations, known_hits, undecided, crashes = [], [], [], []
@@ -360,6 +417,8 @@ def run_property(prop, tier, seed, level, explanation="", trusted_base=(), worke
         json.dump(evidence, f, indent=1, default=str)
     print(f"{prop} tier={tier}: obligations={n_ob} discharged={n_dis} known={n_known} new-violations={len(violations)} undecided={len(undecided)} "
           f"errors={len(crashes)} bounded-evals={bounded_eval} wall={wall:.1f}s")
+    if any(confirmed for _, _, confirmed in violations):
+        return 1  # a violation replayed on the real code stands, whatever else was left undecided
     if crashes:
         return 3
     if violations:
